@@ -213,6 +213,19 @@ def reuse(c, item):
                     c.violation(key + 'value', 're-used setup, experiment %d of the sequence: cost(%r) = %r, stated posterior of the data in force %r' % (
                         k + 2, th, got, exp), dict(reuse=[caseA, caseB, chain]))
                     return
+        # the same object once more with the measured species listed in another order (same data): the value must not move
+        if len(cs['meas']) > 1:
+            ins.set_measurements(list(reversed(cs['meas'])))
+            ins.prepare_inference()
+            ins.setup_cost_function()
+            for th in (1.3, 0.5):
+                got = float(ins.cost_function([th]))
+                exp = ref_cost(cs, dfs, th)
+                c.count('evaluations'); c.count('transitions'); c.count('traces')
+                if not math.isfinite(got) or abs(got - exp) > 1e-5 * (1 + abs(exp)):
+                    c.violation(key + 'measurement-order', 're-used setup prepared again with the measurements in reverse order: cost(%r) = %r, stated posterior %r' % (
+                        th, got, exp), dict(reuse=[caseA, caseB, chain]))
+                    return
     except Exception as e:
         c.violation(key + 'exception', 're-using an InferenceSetup through its setters raised %r' % e, dict(reuse=[caseA, caseB, chain]))
         return
